@@ -712,17 +712,25 @@ def worker_cases(seed, n):
     cases = []
     for i in range(n):
         slow = (i % 4 == 3)                       # every fourth case has a slow handler: judged by the oracle only
-        thr = r.choice([120, 120, 170, 220, 0]) if not slow else r.choice([120, 170])
-        k = r.randint(1, 9); t = 0; arr = []
+        changing = (i % 4 == 1)                   # every fourth case changes the throttle at run time (100 ms grid, changes at x70, edges at x40)
+        grid = 100 if changing else 50
+        thr = r.choice([140, 240]) if changing else (r.choice([120, 120, 170, 220, 0]) if not slow else r.choice([120, 170]))
+        k = r.randint(1, 6 if changing else 9); t = grid if changing else 0; arr = []
         for j in range(k):
-            t += r.choice([0, 50, 50, 100, 150, 250]) if j else 0
-            if arr and t == arr[-1][0]: t += 50
+            t += r.choice([0, 1, 1, 2, 3, 5]) * grid if j else 0
+            if arr and t == arr[-1][0]: t += grid
             prio = r.choice("nnnnhlu"); kind = r.choice("ttttte"); v = r.choice("ppprre")
             arr.append((t, f"{i}x{j}", prio, kind, v))
-        cases.append((f"c{i}", thr, r.choice([60, 130]) if slow else 0, arr))
+        changes = []
+        if changing:
+            for _ in range(r.randint(1, 2)):
+                off = r.randrange(0, arr[-1][0] // 100 + 2) * 100 + 70
+                if all(c[0] != off for c in changes): changes.append((off, r.choice([140, 240, 340])))
+            changes.sort()
+        cases.append((f"c{i}", thr, r.choice([60, 130]) if slow else 0, arr, changes))
     return cases
 
-def worker_oracle(thr, arr, sent, got, errs, filtered):
+def worker_oracle(thr, arr, sent, got, errs, filtered, changes=()):
     """schedule-independent: conservation, never-rejected, non-empty, filter bypass, error count, strict lower bound"""
     byid = {a[1]: a for a in arr}
     acc = sorted(a[1] for a in arr if a[2] == "u" or a[3] == "e" or a[4] == "p")
@@ -739,8 +747,15 @@ def worker_oracle(thr, arr, sent, got, errs, filtered):
     for tg, ids in got:
         if any(byid[x][2] == "u" for x in ids if x in byid): continue
         first = min(sent[x] for x in ids if x in sent) if any(x in sent for x in ids) else None
-        if first is not None and tg < first + thr * 1000:
-            out.append(("C02", f"batch {ids} reached the handler {(first + thr * 1000 - tg) / 1000:.2f} ms before its window ({thr} ms after its first event) had elapsed"))
+        if first is None: continue
+        # the throttle values configured at any time between the first event and the delivery (run-time changes included)
+        vals = [thr]; cur = thr
+        for off, v in changes:
+            if off * 1000 <= first: cur = v; vals = [cur]
+            elif off * 1000 <= tg: vals.append(v)
+        bound = min(vals)
+        if tg < first + bound * 1000:
+            out.append(("C02", f"batch {ids} reached the handler {(first + bound * 1000 - tg) / 1000:.2f} ms before its window ({bound} ms after its first event, the smallest throttle configured meanwhile) had elapsed"))
     return out
 
 def worker_stream(pid, ctx):
@@ -748,7 +763,7 @@ def worker_stream(pid, ctx):
     s = core.StreamResult("worker-rt")
     d = core.WORK / pid / "worker-rt"; d.mkdir(parents=True, exist_ok=True)
     cases = worker_cases(ctx["seed"], n)
-    lines = [f"{cid} {thr} {hm} " + ",".join(f"{t}:{i}:{p}:{k}:{v}" for (t, i, p, k, v) in a) for cid, thr, hm, a in cases]
+    lines = [f"{cid} {thr} {hm} " + ",".join([f"{t}:{i}:{p}:{k}:{v}" for (t, i, p, k, v) in a] + [f"{off}:T:{v}" for off, v in ch]) for cid, thr, hm, a, ch in cases]
     (d / "cases.txt").write_text("\n".join(lines) + "\n")
     def run_all(ls):
         p = subprocess.run([str(core.TARGET / "wxthrottle")], input="\n".join(ls) + "\n", capture_output=True, text=True, timeout=3000)
@@ -767,16 +782,16 @@ def worker_stream(pid, ctx):
         got = [(int(b.split("@")[1]), b.split("@")[0].split("+")) for b in m.group(2).split(",") if b]
         return sent, got, int(m.group(3)), [x for x in m.group(4).split("+") if x]
     suspects = []
-    for i, ((cid, thr, hm, arr), line, mo) in enumerate(zip(cases, outs, model)):
+    for i, ((cid, thr, hm, arr, changes), line, mo) in enumerate(zip(cases, outs, model)):
         sent, got, errs, filtered = parse(line)
         canon = f"{cid} batches={','.join('+'.join(ids) for _, ids in got)} errs={errs} filtered={'+'.join(filtered)}"
         if hm == 0 and canon != mo: suspects.append(i)
-        for prop, what in worker_oracle(thr, arr, sent, got, errs, filtered):
+        for prop, what in worker_oracle(thr, arr, sent, got, errs, filtered, changes):
             if prop == pid or (pid == "C02" and prop == "C01" and False): s.oracle_failures.append((i, lines[i], line, f"[{prop}] {what}"))
         for tg, ids in got:
             if not any(a[2] == "u" for a in arr if a[1] in ids) and all(x in sent for x in ids):
-                worst_late = max(worst_late, tg - (min(sent[x] for x in ids) + thr * 1000))
-        s.bump(f"throttle={thr}"); s.bump("slow-handler" if hm else "instant-handler"); s.bump(f"batches={min(len(got), 4)}")
+                if not changes: worst_late = max(worst_late, tg - (min(sent[x] for x in ids) + thr * 1000))
+        s.bump(f"throttle={thr}"); s.bump("slow-handler" if hm else "instant-handler"); s.bump("throttle-changes-at-run-time" if changes else "fixed-throttle"); s.bump(f"batches={min(len(got), 4)}")
         if len(got) >= 2: s.nontrivial.add(hashlib.md5((lines[i].split(" ", 1)[1] + canon).encode()).digest()[:8])
         if i % max(1, len(cases) // 3) == 0 and len(s.samples) < 3: s.samples.append({"case": lines[i], "impl": line[:300], "model": mo[:300]})
     # a composition mismatch in a deterministic case depends on wall-clock scheduling: it counts only if it persists in 3 re-runs
@@ -794,7 +809,7 @@ def worker_stream(pid, ctx):
         s.bump("timing-suspects-rerun", len(suspects))
     s.distribution["worst lateness after window end (us)"] = worst_late
     s.note = ("the real action::worker with own channels in REAL time (std Instant is not virtualised): arrivals on a 50 ms grid with throttles 0/120/170/220 ms (every arrival 20-30 ms away "
-              "from a window edge), scripted filter verdicts keyed by event id, priorities incl. urgent, empty events; 3/4 of the cases have an instant handler and their batch "
+              "from a window edge), a quarter of the cases on a 100 ms grid with the throttle changed at run time (140/240/340 ms, changes 30 ms away from arrivals and edges), scripted filter verdicts keyed by event id, priorities incl. urgent, empty events; 3/4 of the cases have an instant handler and their batch "
               "composition / error count / filter-call list must equal the model's zero-latency run (a mismatch counts only if it persists in three re-runs); 1/4 have a slow handler and "
               "are judged by the schedule-independent oracle only (conservation, never-rejected, non-empty, filter bypass, strict lower bound)")
     return s
@@ -812,3 +827,46 @@ PLANS["C01"] = worker_plan("C01", ["Sp.Th.collect_conserve", "Sp.Th.turn_batch",
                            "Oracle: every accepted event in exactly one batch, no rejected or erroring event in any, no empty batch, one runtime error per erroring event.")
 PLANS["C02"] = worker_plan("C02", ["Sp.Th.turn_lower_bound", "Sp.Th.turn_batch", "Sp.Th.turn_filtered", "Sp.Th.collect_conserve", "Sp.Th.classify_spec"],
                            "Oracle: a batch without urgent events reaches the handler no earlier than throttle after its first event was sent (strict, microseconds); urgent and empty events never reach the filter.")
+
+# ------------------------------------------------------------------------------------------------
+# C12 CLI ignore-discovery flags
+
+def c12_streams(ctx):
+    flags = ["no-vcs", "no-project", "no-global", "no-default", "no-discover", "ignore-nothing"]
+    def removed_by(src, on):
+        v, p, g, d, disc, allf = on
+        if allf: v = p = g = d = disc = True
+        return {"gg": g or v or disc, "ga": g or disc, "pv": p or v or disc, "pg": p or disc, "gc": p or g or v or disc, "pyc": d}.get(src, False)
+    def oracle(c, obs, mo):
+        # the property itself: a probe owned by a source is ignored unless a set flag names that source; explicit options always act
+        f = c.split("\t"); gc = f[1] == "1"; mask = int(f[2]); on = [bool(mask & (1 << i)) for i in range(6)]
+        rows = obs.split("|")
+        a = dict(x.split(":") for x in rows[0].split(" ")) if ":" in rows[0] else {}
+        for src in ("gg", "ga", "pv", "pg", "pyc") + (("gc",) if gc else ()):
+            want = "pass" if removed_by(src, on) else "ign"
+            if src == "gg" and gc and not (on[1] or on[5]): want = "pass"     # the project's own core.excludesFile replaces the global git excludes
+            if a.get(src) != want: return f"flags [{' '.join(n for n, o in zip(flags, on) if o)}]{' (project git config)' if gc else ''}: probe owned by source `{src}` is {a.get(src)}, the flags say {want}"
+        for lab, want in (("ex", "ign"), ("ip", "ign"), ("ok", "pass")):
+            if a.get(lab) != want: return f"flags [{' '.join(n for n, o in zip(flags, on) if o)}]: explicit option probe `{lab}` is {a.get(lab)}, expected {want} whatever the flags"
+        fixed = ["fl:pass ok:ign ex:ign", "ff:pass ok:ign", "rs:pass toml:pass brs:ign ok:ign", "create:pass modify:ign"]
+        for got, want in zip(rows[1:], fixed):
+            if got != want: return f"flags [{' '.join(n for n, o in zip(flags, on) if o)}]: explicit option row is `{got}`, expected `{want}` whatever the flags"
+        return None
+    s = simple_stream("C12", "cli-flags", "cli", "wxflags", [], ["flags"], oracle=oracle,
+                      nontrivial=lambda c, obs: True, classify=lambda c, obs: ["gitcfg=" + c.split("\t")[1], "sources-active=" + str(obs.split("|")[0].count(":ign"))])
+    s.exhaustive = True
+    s.note = ("exhaustive: all 64 combinations of the six flags x 2 fixture projects (with / without a project-level core.excludesFile) x 5 explicit-option variants (--ignore-file + --ignore, "
+              "--filter + --ignore-file, --filter-file, --exts + --ignore, --fs-events); fixture: global git ignore and global application ignore through HOME / XDG_CONFIG_HOME, project "
+              ".gitignore and .ignore, paths hit by the built-in defaults; the real WatchexecFilterer::new(args_from(argv)) (hook H1) is probed with one event per source")
+    return [s]
+
+PLANS["C12"] = dict(
+    modules=["Wx.Cli.C12"],
+    theorems=["C12.c12_explicit_always", "C12.c12_flags_effective", "C12.c12_exact", "C12.c12_exact_gitcfg", "C12.c12_explicit_all", "C12.c12_fixed_0", "C12.c12_today_52"],
+    bins=[("cli", ["wxflags"])],
+    streams=c12_streams,
+    sources=["crates/cli/src/filterer.rs", "crates/cli/src/dirs.rs", "crates/cli/src/args/filtering.rs"],
+    rule="a case is one flag combination in one fixture project (5 filterer constructions, 20 probes); every case is non-trivial; the space is enumerated completely",
+    assumptions=["ignore_files::from_origin / from_environment return the discovered files with the applies_in / applies_to tags the model's provenance classes stand for (validated on the fixture)",
+                 "clap parsing and Args::normalise are exercised for real (hook H1), modelled only as the --ignore-nothing expansion"],
+)
